@@ -9,8 +9,8 @@
    by a [_refuted] witness and characterised exactly. *)
 From Coq Require Import NArith List.
 From BU Require Import Base.Exn Base.Radix Base.Bytes Model.MnemWords Model.MnemText Model.ChunkMnemonic
-  Model.MoneroMnemonic Model.AlgorandMnemonic.
-From BU Require Import Gen.MnemConsts Gen.MnemLangs Gen.WlMnem_Ev1 Gen.WlMnem_Xmr_english.
+  Model.MoneroMnemonic Model.AlgorandMnemonic Model.ElectrumV1Mnemonic Model.ElectrumV2Mnemonic.
+From BU Require Import Gen.MnemConsts Gen.MnemLangs Gen.WlMnem_Ev1 Gen.WlMnem_Xmr_english Gen.WlMnem_B39_english.
 From BU Require Lemmas.MnemC17 Lemmas.MnemWitness Lemmas.MnemText Lemmas.MoneroMnemonic.
 Import ListNotations.
 Open Scope N_scope.
@@ -265,3 +265,190 @@ Theorem algorand_canonical_refuted : forall sha, sha_law sha ->
                algo_decode sha true ws = Err ValueError.
 Proof. intros sha [H1 H2]. exact (Lemmas.MnemC17.algo_canonical_refuted sha H1 H2). Qed.
 Print Assumptions algorand_canonical_refuted.
+
+(* ================================================================ Electrum v1 ================ *)
+(* the chunk codec, big endian, over the scheme's own 1626-word list: 16 bytes <-> 12 words, no checksum *)
+
+Definition ev1_encode := ElectrumV1Mnemonic.encode wl_ev1 ev1_entropy_bit_lens.
+Definition ev1_decode := ElectrumV1Mnemonic.decode wl_ev1 ev1_word_nums words_to_chunk.
+Definition ev1_decode_current := ElectrumV1Mnemonic.decode wl_ev1 ev1_word_nums words_to_chunk_current.
+Definition ev1_decoder (conformant : bool) := if conformant then ev1_decode else ev1_decode_current.
+
+Theorem electrum_v1_dec_enc : forall conformant b, bytes_ok b -> length b = 16%nat ->
+  exists ws, ev1_encode b = Ok ws /\ length ws = 12%nat /\ Forall (fun w => In w wl_ev1) ws /\
+             ev1_decoder conformant ws = Ok b.
+Proof.
+  intros [|] b.
+  - exact (Lemmas.MnemC17.ev1_dec_enc words_to_chunk b (or_introl eq_refl)).
+  - exact (Lemmas.MnemC17.ev1_dec_enc words_to_chunk_current b (or_intror eq_refl)).
+Qed.
+Print Assumptions electrum_v1_dec_enc.
+
+Example electrum_v1_premises : bytes_ok (repeat 255 16) /\ length (repeat 255 16) = 16%nat.
+Proof. split; [apply bytes_okb_spec; reflexivity|reflexivity]. Qed.
+Print Assumptions electrum_v1_premises.
+
+(* accepted iff 12 list words -- and, for the conformant decoder, every triple packs below 2^32 *)
+Theorem electrum_v1_accepts_iff : forall conformant ws,
+  (exists b, ev1_decoder conformant ws = Ok b) <->
+  (length ws = 12%nat /\ Forall (fun w => In w wl_ev1) ws /\
+   (conformant = true ->
+      Forall (fun g => match g with
+                       | [a; b; c] => exists v, words_packed wl_ev1 a b c = Ok v /\ v < 2 ^ 32
+                       | _ => False end)
+             (groups 3 4 ws))).
+Proof. intros [|] ws; [exact (Lemmas.MnemC17.ev1_accepts_iff true ws)|exact (Lemmas.MnemC17.ev1_accepts_iff false ws)]. Qed.
+Print Assumptions electrum_v1_accepts_iff.
+
+Theorem electrum_v1_decode_errors : forall conformant ws e, ev1_decoder conformant ws = Err e -> e = ValueError.
+Proof.
+  intros [|] ws e; [exact (Lemmas.MnemC17.ev1_decode_err_family true ws e)|exact (Lemmas.MnemC17.ev1_decode_err_family false ws e)].
+Qed.
+Print Assumptions electrum_v1_decode_errors.
+
+Theorem electrum_v1_accepted_is_canonical : forall ws b, ev1_decode ws = Ok b ->
+  length b = 16%nat /\ bytes_ok b /\ ev1_encode b = Ok ws.
+Proof. exact Lemmas.MnemC17.ev1_accepted_is_canonical. Qed.
+Print Assumptions electrum_v1_accepted_is_canonical.
+
+(* F8 for Electrum v1.  Full-strength statement, FALSE of the code as it stands:
+     ev1_decode_current ws = Ok b -> length b = 16.
+   Witness: 12 list words (indices 0 0 1625 0 ... 0) decode to 17 bytes. *)
+Theorem electrum_v1_canonical_refuted :
+  exists ws b, length ws = 12%nat /\ Forall (fun w => In w wl_ev1) ws /\
+    ev1_decode_current ws = Ok b /\ length b = 17%nat /\ ev1_decode ws = Err ValueError.
+Proof. exact Lemmas.MnemWitness.ev1_17_bytes_witness. Qed.
+Print Assumptions electrum_v1_canonical_refuted.
+
+(* ================================================================ Electrum v2 ================ *)
+(* base-2048 digits of the entropy integer (first word least significant) over a BIP-39 list; validity is the
+   "Seed version" HMAC-SHA512 hex prefix of the phrase, excluding phrases that are valid BIP-39 or Electrum v1
+   mnemonics.  [hmac], [b39v] (is a valid BIP-39 mnemonic) and [ev1v] (is a valid Electrum v1 mnemonic) are
+   arbitrary: no law about them is needed.  Types and encoder languages are positions in ElectrumV2MnemonicTypes
+   / ElectrumV2Languages; the decoder's [None] is "all types" / automatic detection over the nine BIP-39 lists. *)
+
+Definition ev2_gate_current := ElectrumV2Mnemonic.gate_current ev2_word_bit_len ev2_entropy_bit_lens.
+Definition ev2_gate_conformant := ElectrumV2Mnemonic.gate_conformant ev2_word_bit_len ev2_entropy_bit_lens.
+
+Section ElectrumV2Defs.
+  Variable hmac : list N -> list N -> list N.
+  Variables b39v ev1v : list (list N) -> bool.
+  Definition ev2_is_valid :=
+    ElectrumV2Mnemonic.is_valid_mnemonic ev2_type_prefixes ev2_hmac_key hmac b39v ev1v.
+  Definition ev2_encode gate :=
+    ElectrumV2Mnemonic.encode ev2_langs ev2_type_prefixes ev2_hmac_key hmac b39v ev1v gate.
+  Definition ev2_decode :=
+    ElectrumV2Mnemonic.decode b39_langs ev2_langs ev2_word_nums ev2_type_prefixes ev2_hmac_key hmac b39v ev1v.
+  Definition ev2_attempts gate :=
+    ElectrumV2Mnemonic.attempts ev2_langs ev2_type_prefixes ev2_hmac_key ev2_max_attempts hmac b39v ev1v gate.
+End ElectrumV2Defs.
+
+(* the entropy-size gate: AreEntropyBitsEnough with floor(log2) read exactly (code as it stands) and with
+   bit_length (what the property needs) *)
+Theorem ev2_gate_iff : forall e,
+  (ev2_gate_current e = true <-> (2 ^ 121 <= e < 2 ^ 133) \/ (2 ^ 253 <= e < 2 ^ 265)) /\
+  (ev2_gate_conformant e = true <-> (2 ^ 121 <= e < 2 ^ 132) \/ (2 ^ 253 <= e < 2 ^ 264)).
+Proof. intros e. split; [exact (Lemmas.MnemC17.ev2_gate_current_iff e)|exact (Lemmas.MnemC17.ev2_gate_conformant_iff e)]. Qed.
+Print Assumptions ev2_gate_iff.
+
+(* decode(encode(e)) = the entropy integer's bytes: under the conformant gate, whatever Encode returns has 12 or
+   24 words and decodes -- with the same type or all types, with the same language or automatic detection -- to
+   ToBytes(int(e)) ... *)
+Theorem electrum_v2_dec_enc : forall hmac b39v ev1v ty lang b ws dty dlang,
+  ev2_encode hmac b39v ev1v ev2_gate_conformant ty lang b = Ok ws ->
+  dty = Some ty \/ dty = None -> dlang = Some lang \/ dlang = None ->
+  (length ws = 12 \/ length ws = 24)%nat /\
+  ev2_decode hmac b39v ev1v dty dlang ws = Ok (int_to_be_auto (be_to_int b)).
+Proof. exact Lemmas.MnemC17.ev2_dec_enc. Qed.
+Print Assumptions electrum_v2_dec_enc.
+
+(* ... which is e itself when e has no leading zero byte *)
+Theorem electrum_v2_entropy_bytes : forall b x t, bytes_ok b -> b = x :: t -> x <> 0 ->
+  int_to_be_auto (be_to_int b) = b.
+Proof. exact Lemmas.MnemC17.int_to_be_auto_stripped. Qed.
+Print Assumptions electrum_v2_entropy_bytes.
+
+(* F10.  Full-strength statement, FALSE of the code as it stands (gate_current):
+     ev2_encode .. ev2_gate_current ty lang b = Ok ws -> ev2_decode .. (Some ty) (Some lang) ws = Ok ...
+   Witness: the 133-bit entropy 2^132 (bytes 10 00 x 16) passes the gate and has 13 base-2048 digits. *)
+Theorem ev2_gate_refuted :
+  ev2_gate_current (2 ^ 132) = true /\ ev2_gate_conformant (2 ^ 132) = false /\
+  length (to_le 2048 (2 ^ 132)) = 13%nat /\ be_to_int (16 :: repeat 0 16) = 2 ^ 132.
+Proof. exact Lemmas.MnemC17.ev2_gate_witness. Qed.
+Print Assumptions ev2_gate_refuted.
+
+(* the defect class exactly: the two gates differ on the bit lengths 133 and 265 only, and there every phrase the
+   encoder returns has 13 or 25 words, which every decoder refuses *)
+Theorem ev2_gate_difference : forall e,
+  (ev2_gate_current e = true /\ ev2_gate_conformant e = false) <->
+  (2 ^ 132 <= e < 2 ^ 133) \/ (2 ^ 264 <= e < 2 ^ 265).
+Proof. exact Lemmas.MnemC17.ev2_gate_diff. Qed.
+Print Assumptions ev2_gate_difference.
+
+Theorem electrum_v2_f10_words : forall hmac b39v ev1v ty lang b ws,
+  ev2_gate_conformant (be_to_int b) = false ->
+  ev2_encode hmac b39v ev1v ev2_gate_current ty lang b = Ok ws ->
+  (length ws = 13 \/ length ws = 25)%nat /\
+  forall dty dlang, ev2_decode hmac b39v ev1v dty dlang ws = Err ValueError \/
+                    ev2_decode hmac b39v ev1v dty dlang ws = Err TypeError.
+Proof. exact Lemmas.MnemC17.ev2_gate_band_words. Qed.
+Print Assumptions electrum_v2_f10_words.
+
+(* a phrase is accepted iff its word count is legal, the version-hash prefix verifies (and it is neither a valid
+   BIP-39 nor a valid Electrum v1 mnemonic), and its words belong to the language's list (the first finder
+   language containing them all under automatic detection) *)
+Theorem electrum_v2_accepts_iff : forall hmac b39v ev1v ty lang ws,
+  (exists b, ev2_decode hmac b39v ev1v ty lang ws = Ok b) <->
+  (match ty with Some t => exists p, nth_error ev2_type_prefixes t = Some p | None => True end /\
+   (length ws = 12 \/ length ws = 24)%nat /\ ev2_is_valid hmac b39v ev1v ws ty = Ok true /\
+   exists wl, match lang with
+              | Some l => nth_error ev2_langs l = Some wl
+              | None => find_language (fun wl => wl) b39_langs ws = Ok wl
+              end /\ Forall (fun w => In w wl) ws).
+Proof. exact Lemmas.MnemC17.ev2_accepts_iff. Qed.
+Print Assumptions electrum_v2_accepts_iff.
+
+(* accepted_is_canonical.  Full-strength statement, FALSE (of the code and of any decoder that accepts every
+   hash-valid phrase):  ev2_decode .. (Some ty) (Some lang) ws = Ok b -> ev2_encode .. ty lang b = Ok ws.
+   A phrase whose LAST word is the first word of the list (index 0: the most significant digit is zero) is
+   accepted, but no encoder run returns it ... *)
+Theorem electrum_v2_canonical_refuted : forall hmac b39v ev1v dty lang ws b wl,
+  nth_error ev2_langs lang = Some wl ->
+  ev2_decode hmac b39v ev1v dty (Some lang) ws = Ok b ->
+  word_idx wl (last ws []) = Ok 0 ->
+  forall gate ty, ev2_encode hmac b39v ev1v gate ty lang b <> Ok ws.
+Proof. exact Lemmas.MnemC17.ev2_top_zero_not_canonical. Qed.
+Print Assumptions electrum_v2_canonical_refuted.
+
+Example electrum_v2_canonical_refuted_premises :
+  let hmac := fun (_ _ : list N) => [1] in
+  let none := fun (_ : list (list N)) => false in
+  let zoo := nth 2047 wl_b39_english [] in
+  let abandon := nth 0 wl_b39_english [] in
+  exists b, ev2_decode hmac none none (Some 0%nat) (Some 1%nat) (repeat zoo 11 ++ [abandon]) = Ok b /\
+            word_idx wl_b39_english (last (repeat zoo 11 ++ [abandon]) []) = Ok 0 /\
+            nth_error ev2_langs 1 = Some wl_b39_english.
+Proof. exact Lemmas.MnemC17.ev2_top_zero_example. Qed.
+Print Assumptions electrum_v2_canonical_refuted_premises.
+
+(* ... and every other accepted phrase is canonical, for both gates *)
+Theorem electrum_v2_accepted_partial : forall hmac b39v ev1v ty lang ws b wl,
+  nth_error ev2_langs lang = Some wl ->
+  ev2_decode hmac b39v ev1v (Some ty) (Some lang) ws = Ok b ->
+  word_idx wl (last ws []) <> Ok 0 ->
+  forall gate, gate = ev2_gate_conformant \/ gate = ev2_gate_current ->
+  ev2_encode hmac b39v ev1v gate ty lang b = Ok ws.
+Proof. exact Lemmas.MnemC17.ev2_accepted_partial. Qed.
+Print Assumptions electrum_v2_accepted_partial.
+
+(* FromEntropy's retry loop (explicit fuel; OutOfFuel is a model artefact): a returned phrase is the encoding of
+   the FIRST entropy e + i, i < MAX_ATTEMPTS, that Encode accepts *)
+Theorem electrum_v2_from_entropy : forall hmac b39v ev1v gate ty lang e fuel i ws,
+  ev2_attempts hmac b39v ev1v gate fuel ty lang e i = Ok ws ->
+  exists k, i + k < ev2_max_attempts /\
+    ev2_encode hmac b39v ev1v gate ty lang (int_to_be_auto (e + (i + k))) = Ok ws /\
+    forall j, j < k ->
+      ev2_encode hmac b39v ev1v gate ty lang (int_to_be_auto (e + (i + j))) = Err ValueError \/
+      ev2_encode hmac b39v ev1v gate ty lang (int_to_be_auto (e + (i + j))) = Err UnicodeError.
+Proof. intros hmac b39v ev1v gate ty lang e. exact (Lemmas.MnemC17.ev2_attempts_spec hmac b39v ev1v gate ty lang e). Qed.
+Print Assumptions electrum_v2_from_entropy.
